@@ -30,7 +30,7 @@ theorem enterSub_balanced {enter : Str → St → Res} (h : Balanced enter) : Ba
   unfold enterSub at he
   split at he
   · next s' hs => cases he; have := h n _ s' hs; simpa using this
-  · next hne => simp_all
+  · simp at he
 
 theorem loadModule_loading {F : Finder} {enter : Str → St → Res} (h : Balanced enter)
     {name : Str} {s s' : St} {id : Nat} (hl : loadModule F enter name s = (.ok s', id)) :
@@ -46,6 +46,61 @@ theorem bindModule_loading (q : LoadQuirks) (id : Nat) (s : St) :
     (bindModule q id s).1.loading = s.loading := by
   unfold bindModule; split <;> rfl
 
+@[simp] theorem cacheIn_loading (q : LoadQuirks) (s : St) : (cacheIn q s).loading = s.loading := by
+  unfold cacheIn; split <;> rfl
+
+@[simp] theorem cacheOut_loading (q : LoadQuirks) (s s' : St) : (cacheOut q s s').loading = s'.loading := by
+  unfold cacheOut; split <;> rfl
+
+/-- a load site, entered with the file locked at the head of `loading`, ends with the file
+unlocked again -/
+theorem runFound_loading {q : LoadQuirks} {F : Finder} {enter : Str → St → Res} (h : Balanced enter)
+    {name : Str} {j : Nat} {b b' : Binds} {s1 s' : St} {L : List Str} {k : Kind}
+    (hl1 : s1.loading = name :: L)
+    (he : runFound q F enter name j b s1 k = (.ok s', b')) : s'.loading = L := by
+  cases k with
+  | use =>
+    simp only [runFound, runUse] at he
+    split at he
+    · next s2 id hm =>
+      have := loadModule_loading h hm
+      simp only [Prod.mk.injEq, Res.ok.injEq] at he
+      obtain ⟨rfl, _⟩ := he
+      simp [bindModule_loading, this, hl1]
+    · simp at he
+  | forward =>
+    simp only [runFound, runForward] at he
+    split at he
+    · next s2 id hm =>
+      have := loadModule_loading h hm
+      simp only [Prod.mk.injEq, Res.ok.injEq] at he
+      obtain ⟨rfl, _⟩ := he
+      simp [this, hl1]
+    · simp at he
+  | «import» =>
+    simp only [runFound, runImport, Prod.mk.injEq] at he
+    obtain ⟨he, _⟩ := he
+    split at he
+    · next s2 hs =>
+      have := enterSub_balanced h _ _ _ hs
+      simp only [Res.ok.injEq] at he
+      subst he
+      simp [this, hl1]
+    · simp at he
+  | loadCss =>
+    simp only [runFound, runLoadCss, Prod.mk.injEq] at he
+    obtain ⟨he, _⟩ := he
+    split at he
+    · have := enterSub_balanced h _ _ _ he
+      simp [this, hl1]
+    · split at he
+      · next s2 hs =>
+        have := enterSub_balanced h _ _ _ hs
+        simp only [Res.ok.injEq] at he
+        subst he
+        simp [this, hl1]
+      · simp at he
+
 /-- one statement leaves `loading` as it found it (whatever the deviation flags) -/
 theorem execItem_loading {q : LoadQuirks} {F : Finder} {enter : Str → St → Res} (h : Balanced enter)
     {self : Str} {j : Nat} {b b' : Binds} {s s' : St} {it : Item}
@@ -55,66 +110,24 @@ theorem execItem_loading {q : LoadQuirks} {F : Finder} {enter : Str → St → R
   | bump k t =>
     simp only [execItem] at he
     split at he
-    · cases he
+    · simp at he
     · split at he
       · simp at he; obtain ⟨rfl, _⟩ := he; rfl
-      · cases he
+      · simp at he
   | load k url uq =>
     simp only [execItem] at he
     split at he
-    · cases he
-    · cases he
+    · simp at he
+    · simp at he
     · split at he
       · simp at he; obtain ⟨rfl, _⟩ := he; rfl
-      · cases he
+      · simp at he
     · next name calls hf =>
       split at he
-      · cases he
+      · simp at he
       · next s1 hlock =>
         obtain ⟨hnot, hl1⟩ := lock_some hlock
-        simp only at hl1
-        cases k with
-        | use =>
-          simp only at he
-          split at he
-          · next s2 id hm =>
-            have := loadModule_loading h hm
-            simp only [Prod.mk.injEq, Res.ok.injEq] at he
-            obtain ⟨rfl, _⟩ := he
-            simp [bindModule_loading, this, hl1]
-          · next hne => simp only [Prod.mk.injEq] at he; obtain ⟨rfl, _⟩ := he; exact absurd rfl (hne _ _)
-        | forward =>
-          simp only at he
-          split at he
-          · next s2 id hm =>
-            have := loadModule_loading h hm
-            simp only [Prod.mk.injEq, Res.ok.injEq] at he
-            obtain ⟨rfl, _⟩ := he
-            simp [this, hl1]
-          · next hne => simp only [Prod.mk.injEq] at he; obtain ⟨rfl, _⟩ := he; exact absurd rfl (hne _ _)
-        | «import» =>
-          simp only at he
-          split at he
-          · next s2 hs =>
-            have := enterSub_balanced h _ _ _ hs
-            simp only [Prod.mk.injEq, Res.ok.injEq] at he
-            obtain ⟨rfl, _⟩ := he
-            split at this <;> split <;> simp_all
-          · cases he
-        | loadCss =>
-          simp only at he
-          split at he
-          · simp only [Prod.mk.injEq] at he
-            obtain ⟨hs, _⟩ := he
-            have := enterSub_balanced h _ _ _ hs
-            simp_all
-          · split at he
-            · next s2 hs =>
-              have := enterSub_balanced h _ _ _ hs
-              simp only [Prod.mk.injEq, Res.ok.injEq] at he
-              obtain ⟨rfl, _⟩ := he
-              simp [this, hl1]
-            · cases he
+        exact runFound_loading h hl1 he
 
 theorem execItems_loading {q : LoadQuirks} {F : Finder} {enter : Str → St → Res} (h : Balanced enter)
     {self : Str} (items : List Item) {j : Nat} {b : Binds} {s s' : St}
@@ -125,12 +138,461 @@ theorem execItems_loading {q : LoadQuirks} {F : Finder} {enter : Str → St → 
     simp only [execItems] at he
     split at he
     · next s1 b1 h1 => rw [ih he, execItem_loading h h1]
-    · cases he
+    · simp at he
 
 /-- a body that runs to completion leaves `loading` exactly as it found it -/
 theorem execBody_balanced (q : LoadQuirks) (F : Finder) (fuel : Nat) : Balanced (execBody q F fuel) := by
   induction fuel with
   | zero => intro n s1 s2 h; simp [execBody] at h
   | succ fuel ih => intro n s1 s2 h; exact execItems_loading ih _ h
+
+/-! ### a class of errors that never arises -/
+
+/-- the result is an error of the class `bad` -/
+def Res.isBad (bad : Err → Bool) : Res → Bool
+  | .ok _ => false
+  | .err e _ => bad e
+
+/-- `bad` errors are not produced by a statement itself, except possibly the loop error -/
+def OnlyNested (bad : Err → Bool) : Prop :=
+  bad .fault = false ∧ bad .format = false ∧ bad .notFound = false ∧ bad .badBump = false
+
+theorem enterSub_bad {bad : Err → Bool} {enter : Str → St → Res} {name : Str} {s : St}
+    (h : (enter name { s with fwdSeen := false }).isBad bad = false) :
+    (enterSub enter name s).isBad bad = false := by
+  unfold enterSub
+  split
+  · rfl
+  · next e s' hs => rw [hs] at h; exact h
+
+theorem loadModule_bad {bad : Err → Bool} {F : Finder} {enter : Str → St → Res} {name : Str} {s : St}
+    (h : ∀ s1 : St, s1.loading = s.loading → (enter name s1).isBad bad = false) :
+    (loadModule F enter name s).1.isBad bad = false := by
+  unfold loadModule
+  split
+  · rfl
+  · split
+    · rfl
+    · next e s' hs =>
+      have := h _ (by rfl : ({ s with execLog := name :: s.execLog, fwdSeen := false } : St).loading = s.loading)
+      rw [hs] at this; exact this
+
+/-- a load site produces no `bad` error when entering the body does not (load-css locked
+during its body: `loadCssUnlockEarly` off) -/
+theorem runFound_bad {bad : Err → Bool} {q : LoadQuirks} (hq : q.loadCssUnlockEarly = false)
+    {F : Finder} {enter : Str → St → Res} {name : Str} {j : Nat} {b : Binds} {s1 : St} {k : Kind}
+    (h : ∀ s2 : St, s2.loading = s1.loading → (enter name s2).isBad bad = false) :
+    (runFound q F enter name j b s1 k).1.isBad bad = false := by
+  cases k with
+  | use =>
+    simp only [runFound, runUse]
+    have := loadModule_bad (F := F) (bad := bad) (enter := enter) (name := name) (s := s1) h
+    split
+    · rfl
+    · next e s' _ hm => rw [hm] at this; exact this
+  | forward =>
+    simp only [runFound, runForward]
+    have := loadModule_bad (F := F) (bad := bad) (enter := enter) (name := name) (s := s1) h
+    split
+    · rfl
+    · next e s' _ hm => rw [hm] at this; exact this
+  | «import» =>
+    simp only [runFound, runImport]
+    have := enterSub_bad (bad := bad) (enter := enter) (name := name) (s := cacheIn q s1)
+      (h _ (by simp))
+    split
+    · rfl
+    · next e s' hs => rw [hs] at this; exact this
+  | loadCss =>
+    simp only [runFound, runLoadCss, hq, Bool.false_eq_true, if_false]
+    have := enterSub_bad (bad := bad) (enter := enter) (name := name) (s := s1) (h _ rfl)
+    split
+    · rfl
+    · next e s' hs => rw [hs] at this; exact this
+
+/-- Generic invariant lemma for a statement list.  `Pre n L'` is what is known when the body of
+`n` is entered with `loading = L'`; a statement of `self` (running with `loading = L`) that finds
+`n` unlocked must establish it; when the loop error is `bad`, found files must be unlocked. -/
+theorem execItems_bad {bad : Err → Bool} (hb : OnlyNested bad) {q : LoadQuirks}
+    (hq : q.loadCssUnlockEarly = false) {F : Finder} {enter : Str → St → Res} (hbal : Balanced enter)
+    (Pre : Str → List Str → Prop)
+    (henter : ∀ n (s1 : St), Pre n s1.loading → (enter n s1).isBad bad = false)
+    {self : Str} (L : List Str) (items : List Item)
+    (hstep : ∀ k url uq calls n c, Item.load k url uq ∈ items → F.find self k url calls = .found n c →
+      n ∉ L → Pre n (n :: L))
+    (hloop : bad .loop = true → ∀ k url uq calls n c, Item.load k url uq ∈ items →
+      F.find self k url calls = .found n c → n ∉ L)
+    {j : Nat} {b : Binds} {s : St} (hL : s.loading = L) :
+    (execItems q F enter self items j b s).isBad bad = false := by
+  induction items generalizing j b s with
+  | nil => rfl
+  | cons it rest ih =>
+    simp only [execItems]
+    split
+    · next s' b' h1 =>
+      apply ih
+      · intro k url uq calls n c hm; exact hstep k url uq calls n c (List.mem_cons_of_mem _ hm)
+      · intro hl k url uq calls n c hm; exact hloop hl k url uq calls n c (List.mem_cons_of_mem _ hm)
+      · rw [execItem_loading hbal h1, hL]
+    · next e s' _ h1 =>
+      -- the statement itself failed: show the error is not `bad`
+      obtain ⟨hf, hfo, hnf, hbb⟩ := hb
+      cases it with
+      | mark => simp [execItem] at h1
+      | bump k t =>
+        simp only [execItem] at h1
+        split at h1
+        · simp at h1; obtain ⟨⟨rfl, _⟩, _⟩ := h1; exact hbb
+        · split at h1
+          · simp at h1
+          · simp at h1; obtain ⟨⟨rfl, _⟩, _⟩ := h1; exact hbb
+      | load k url uq =>
+        simp only [execItem] at h1
+        split at h1
+        · simp at h1; obtain ⟨⟨rfl, _⟩, _⟩ := h1; exact hf
+        · simp at h1; obtain ⟨⟨rfl, _⟩, _⟩ := h1; exact hfo
+        · split at h1
+          · simp at h1
+          · simp at h1; obtain ⟨⟨rfl, _⟩, _⟩ := h1; exact hnf
+        · next name calls hfind =>
+          split at h1
+          · next hlock =>
+            simp at h1; obtain ⟨⟨rfl, _⟩, _⟩ := h1
+            have hin : name ∈ L := by
+              have := lock_none.mp hlock; simpa [hL] using this
+            cases hbl : bad .loop with
+            | false => simp [Res.isBad, hbl]
+            | true => exact absurd hin (hloop hbl k url uq s.calls name calls (List.mem_cons_self ..) hfind)
+          · next s1 hlock =>
+            obtain ⟨hnot, hl1⟩ := lock_some hlock
+            simp only [hL] at hnot hl1
+            have hpre := hstep k url uq s.calls name calls (List.mem_cons_self ..) hfind hnot
+            have := runFound_bad (bad := bad) hq (F := F) (enter := enter) (name := name) (j := j)
+              (b := b) (s1 := s1) (k := k)
+              (fun s2 h2 => henter name s2 (by rw [h2, hl1]; exact hpre))
+            rw [h1] at this; exact this
+
+/-! ### the termination measure -/
+
+/-- how many of the names `K` are not being loaded -/
+def room : List Str → List Str → Nat
+  | [], _ => 0
+  | k :: K, L => (if k ∈ L then 0 else 1) + room K L
+
+theorem room_le (K L : List Str) : room K L ≤ K.length := by
+  induction K with
+  | nil => simp [room]
+  | cons k K ih => simp only [room, List.length_cons]; split <;> omega
+
+theorem room_cons_le (K L : List Str) (n : Str) : room K (n :: L) ≤ room K L := by
+  induction K with
+  | nil => simp [room]
+  | cons k K ih =>
+    simp only [room]
+    by_cases h1 : k ∈ L
+    · have : k ∈ n :: L := List.mem_cons_of_mem _ h1
+      simp [h1, this, ih]
+    · by_cases h2 : k ∈ n :: L
+      · simp [h1, h2]; omega
+      · simp [h1, h2, ih]
+
+theorem room_cons_lt {K L : List Str} {n : Str} (hn : n ∈ K) (hnl : n ∉ L) :
+    room K (n :: L) < room K L := by
+  induction K with
+  | nil => cases hn
+  | cons k K ih =>
+    simp only [room]
+    by_cases hk : k = n
+    · subst hk
+      have := room_cons_le K L k
+      simp [hnl]; omega
+    · have hn' : n ∈ K := by
+        cases hn with
+        | head => exact absurd rfl hk
+        | tail _ h => exact h
+      have := ih hn'
+      by_cases h1 : k ∈ L
+      · have : k ∈ n :: L := List.mem_cons_of_mem _ h1
+        simp [h1, this]; omega
+      · have h2 : k ∉ n :: L := by simp [hk, h1]
+        simp [h1, h2]; omega
+
+/-! ### the module cache only grows (when `@import` does not swap it: `importFreshCache` off) -/
+
+/-- what is cached stays cached, under the same module id -/
+def CacheLe (s s' : St) : Prop :=
+  ∀ k id, s.modules.lookup k = some id → s'.modules.lookup k = some id
+
+theorem CacheLe.refl (s : St) : CacheLe s s := fun _ _ h => h
+theorem CacheLe.trans {a b c : St} (h1 : CacheLe a b) (h2 : CacheLe b c) : CacheLe a c :=
+  fun k id h => h2 k id (h1 k id h)
+
+def CacheMono (enter : Str → St → Res) : Prop :=
+  ∀ n s1 s2, enter n s1 = .ok s2 → CacheLe s1 s2
+
+theorem enterSub_cacheMono {enter : Str → St → Res} (h : CacheMono enter) : CacheMono (enterSub enter) := by
+  intro n s1 s2 he
+  unfold enterSub at he
+  split at he
+  · next s' hs =>
+    cases he
+    have := h n _ s' hs
+    intro k id hk
+    exact this k id hk
+  · simp at he
+
+theorem loadModule_cacheLe {F : Finder} {enter : Str → St → Res} (h : CacheMono enter)
+    {name : Str} {s s' : St} {id : Nat} (hl : loadModule F enter name s = (.ok s', id)) :
+    CacheLe s s' ∧ s'.modules.lookup name = some id := by
+  unfold loadModule at hl
+  split at hl
+  · next id' hc => cases hl; exact ⟨CacheLe.refl _, hc⟩
+  · next hnone =>
+    split at hl
+    · next s2 hs =>
+      cases hl
+      have hmono := h name _ s2 hs
+      refine ⟨?_, by simp [List.lookup]⟩
+      intro k id hk
+      have hk2 := hmono k id hk
+      by_cases hkn : k = name
+      · subst hkn; rw [hnone] at hk; cases hk
+      · have : (k == name) = false := by simpa using hkn
+        simp [List.lookup, this, hk2]
+    · cases hl
+
+theorem runFound_cacheLe {q : LoadQuirks} (hq : q.importFreshCache = false) {F : Finder}
+    {enter : Str → St → Res} (h : CacheMono enter) {name : Str} {j : Nat} {b b' : Binds} {s1 s' : St}
+    {k : Kind} (he : runFound q F enter name j b s1 k = (.ok s', b')) : CacheLe s1 s' := by
+  cases k with
+  | use =>
+    simp only [runFound, runUse] at he
+    split at he
+    · next s2 id hm =>
+      have := (loadModule_cacheLe h hm).1
+      simp only [Prod.mk.injEq, Res.ok.injEq] at he
+      obtain ⟨rfl, _⟩ := he
+      intro k id hk
+      have := this k id hk
+      unfold bindModule; split <;> simpa [unlock] using this
+    · simp at he
+  | forward =>
+    simp only [runFound, runForward] at he
+    split at he
+    · next s2 id hm =>
+      have := (loadModule_cacheLe h hm).1
+      simp only [Prod.mk.injEq, Res.ok.injEq] at he
+      obtain ⟨rfl, _⟩ := he
+      intro k id hk
+      simpa [unlock] using this k id hk
+    · simp at he
+  | «import» =>
+    simp only [runFound, runImport, Prod.mk.injEq, cacheIn, cacheOut, hq] at he
+    obtain ⟨he, _⟩ := he
+    split at he
+    · next s2 hs =>
+      have := enterSub_cacheMono h _ _ _ hs
+      simp only [Res.ok.injEq] at he
+      subst he
+      intro k id hk
+      simpa [unlock] using this k id hk
+    · simp at he
+  | loadCss =>
+    simp only [runFound, runLoadCss, Prod.mk.injEq] at he
+    obtain ⟨he, _⟩ := he
+    split at he
+    · have := enterSub_cacheMono h _ _ _ he
+      intro k id hk
+      exact this k id (by simpa [unlock] using hk)
+    · split at he
+      · next s2 hs =>
+        have := enterSub_cacheMono h _ _ _ hs
+        simp only [Res.ok.injEq] at he
+        subst he
+        intro k id hk
+        simpa [unlock] using this k id hk
+      · simp at he
+
+theorem execItem_cacheLe {q : LoadQuirks} (hq : q.importFreshCache = false) {F : Finder}
+    {enter : Str → St → Res} (h : CacheMono enter)
+    {self : Str} {j : Nat} {b b' : Binds} {s s' : St} {it : Item}
+    (he : execItem q F enter self j b s it = (.ok s', b')) : CacheLe s s' := by
+  cases it with
+  | mark => simp [execItem] at he; obtain ⟨rfl, _⟩ := he; exact fun _ _ h => h
+  | bump k t =>
+    simp only [execItem] at he
+    split at he
+    · simp at he
+    · split at he
+      · simp at he; obtain ⟨rfl, _⟩ := he; exact fun _ _ h => h
+      · simp at he
+  | load k url uq =>
+    simp only [execItem] at he
+    split at he
+    · simp at he
+    · simp at he
+    · split at he
+      · simp at he; obtain ⟨rfl, _⟩ := he; exact fun _ _ h => h
+      · simp at he
+    · next name calls hf =>
+      split at he
+      · simp at he
+      · next s1 hlock =>
+        have := runFound_cacheLe hq h he
+        unfold lock at hlock
+        split at hlock
+        · cases hlock
+        · cases hlock; exact this
+
+theorem execItems_cacheLe {q : LoadQuirks} (hq : q.importFreshCache = false) {F : Finder}
+    {enter : Str → St → Res} (h : CacheMono enter)
+    {self : Str} (items : List Item) {j : Nat} {b : Binds} {s s' : St}
+    (he : execItems q F enter self items j b s = .ok s') : CacheLe s s' := by
+  induction items generalizing j b s with
+  | nil => simp [execItems] at he; rw [he]; exact CacheLe.refl _
+  | cons it rest ih =>
+    simp only [execItems] at he
+    split at he
+    · next s1 b1 h1 => exact CacheLe.trans (execItem_cacheLe hq h h1) (ih he)
+    · simp at he
+
+/-- whatever a body does, every cached module stays cached under the same id -/
+theorem execBody_cacheMono (q : LoadQuirks) (hq : q.importFreshCache = false) (F : Finder) (fuel : Nat) :
+    CacheMono (execBody q F fuel) := by
+  induction fuel with
+  | zero => intro n s1 s2 h; simp [execBody] at h
+  | succ fuel ih => intro n s1 s2 h; exact execItems_cacheLe hq ih _ h
+
+/-! ### a predicate on the call log that every successful lookup preserves -/
+
+def CallsPres (P : List Call → Prop) (enter : Str → St → Res) : Prop :=
+  ∀ n s1 s2, P s1.calls → enter n s1 = .ok s2 → P s2.calls
+
+/-- lookups that do not fail keep `P` -/
+def FindPres (P : List Call → Prop) (F : Finder) : Prop :=
+  ∀ self k url calls, P calls →
+    (∀ n c, F.find self k url calls = .found n c → P c) ∧
+    (∀ c, F.find self k url calls = .missing c → P c)
+
+theorem enterSub_callsPres {P : List Call → Prop} {enter : Str → St → Res} (h : CallsPres P enter) :
+    CallsPres P (enterSub enter) := by
+  intro n s1 s2 hp he
+  unfold enterSub at he
+  split at he
+  · next s' hs => cases he; exact h n _ s' (by simpa using hp) hs
+  · simp at he
+
+theorem loadModule_calls {P : List Call → Prop} {F : Finder} {enter : Str → St → Res}
+    (h : CallsPres P enter) {name : Str} {s s' : St} {id : Nat} (hp : P s.calls)
+    (hl : loadModule F enter name s = (.ok s', id)) : P s'.calls := by
+  unfold loadModule at hl
+  split at hl
+  · cases hl; exact hp
+  · split at hl
+    · next s2 hs => cases hl; exact h name _ s2 (by simpa using hp) hs
+    · cases hl
+
+theorem runFound_calls {P : List Call → Prop} {q : LoadQuirks} {F : Finder} {enter : Str → St → Res}
+    (h : CallsPres P enter) {name : Str} {j : Nat} {b b' : Binds} {s1 s' : St} {k : Kind}
+    (hp : P s1.calls) (he : runFound q F enter name j b s1 k = (.ok s', b')) : P s'.calls := by
+  cases k with
+  | use =>
+    simp only [runFound, runUse] at he
+    split at he
+    · next s2 id hm =>
+      have := loadModule_calls h hp hm
+      simp only [Prod.mk.injEq, Res.ok.injEq] at he
+      obtain ⟨rfl, _⟩ := he
+      unfold bindModule; split <;> simpa [unlock] using this
+    · simp at he
+  | forward =>
+    simp only [runFound, runForward] at he
+    split at he
+    · next s2 id hm =>
+      have := loadModule_calls h hp hm
+      simp only [Prod.mk.injEq, Res.ok.injEq] at he
+      obtain ⟨rfl, _⟩ := he
+      simpa [unlock] using this
+    · simp at he
+  | «import» =>
+    simp only [runFound, runImport, Prod.mk.injEq] at he
+    obtain ⟨he, _⟩ := he
+    split at he
+    · next s2 hs =>
+      have := enterSub_callsPres h _ _ _ (by unfold cacheIn; split <;> exact hp) hs
+      simp only [Res.ok.injEq] at he
+      subst he
+      unfold cacheOut; split <;> simpa [unlock] using this
+    · simp at he
+  | loadCss =>
+    simp only [runFound, runLoadCss, Prod.mk.injEq] at he
+    obtain ⟨he, _⟩ := he
+    split at he
+    · exact enterSub_callsPres h _ _ _ (by simpa [unlock] using hp) he
+    · split at he
+      · next s2 hs =>
+        have := enterSub_callsPres h _ _ _ hp hs
+        simp only [Res.ok.injEq] at he
+        subst he
+        simpa [unlock] using this
+      · simp at he
+
+theorem execItem_calls {P : List Call → Prop} {q : LoadQuirks} {F : Finder} (hF : FindPres P F)
+    {enter : Str → St → Res} (h : CallsPres P enter)
+    {self : Str} {j : Nat} {b b' : Binds} {s s' : St} {it : Item} (hp : P s.calls)
+    (he : execItem q F enter self j b s it = (.ok s', b')) : P s'.calls := by
+  cases it with
+  | mark => simp [execItem] at he; obtain ⟨rfl, _⟩ := he; exact hp
+  | bump k t =>
+    simp only [execItem] at he
+    split at he
+    · simp at he
+    · split at he
+      · simp at he; obtain ⟨rfl, _⟩ := he; exact hp
+      · simp at he
+  | load k url uq =>
+    simp only [execItem] at he
+    split at he
+    · simp at he
+    · simp at he
+    · next calls hf =>
+      split at he
+      · simp at he; obtain ⟨rfl, _⟩ := he; exact (hF self k url s.calls hp).2 calls hf
+      · simp at he
+    · next name calls hf =>
+      have hc := (hF self k url s.calls hp).1 name calls hf
+      split at he
+      · simp at he
+      · next s1 hlock =>
+        unfold lock at hlock
+        split at hlock
+        · cases hlock
+        · cases hlock; exact runFound_calls h hc he
+
+theorem execItems_calls {P : List Call → Prop} {q : LoadQuirks} {F : Finder} (hF : FindPres P F)
+    {enter : Str → St → Res} (h : CallsPres P enter)
+    {self : Str} (items : List Item) {j : Nat} {b : Binds} {s s' : St} (hp : P s.calls)
+    (he : execItems q F enter self items j b s = .ok s') : P s'.calls := by
+  induction items generalizing j b s with
+  | nil => simp [execItems] at he; rw [← he]; exact hp
+  | cons it rest ih =>
+    simp only [execItems] at he
+    split at he
+    · next s1 b1 h1 => exact ih (execItem_calls hF h hp h1) he
+    · simp at he
+
+theorem execBody_callsPres (P : List Call → Prop) (q : LoadQuirks) (F : Finder) (hF : FindPres P F)
+    (fuel : Nat) : CallsPres P (execBody q F fuel) := by
+  induction fuel with
+  | zero => intro n s1 s2 _ h; simp [execBody] at h
+  | succ fuel ih => intro n s1 s2 hp h; exact execItems_calls hF ih _ hp h
+
+def Res.markers : Res → List Marker
+  | .ok s => s.imports ++ s.out
+  | .err _ _ => []
+
+def Res.errOf : Res → Option Err
+  | .ok _ => none
+  | .err e _ => some e
 
 end Load
